@@ -15,8 +15,17 @@ import (
 // c17CheckDeployTiming: success => returned at the instant the last new target became healthy plus the
 // drain (0 when the replaced set was idle); failure => returned exactly at the deploy timeout.
 func c17CheckDeployTiming(res *vfResult, p c01Plan, w *vfWorld, cr vfCmdResult, failed bool, start, deadline, maxStrict, maxLoose time.Duration,
-	oldNames, oldRollout []string, desc string) {
+	probeTie bool, oldNames, oldRollout []string, desc string) {
 	end := cr.End
+	if probeTie {
+		// some new target answered a probe exactly at the probe timeout: whether (and at which later probe) it
+		// counted as healthy is not determined; only the overall bound is judged
+		res.label("tie:probe-at-probe-timeout")
+		if !failed && end > start+vfMs(p.DeployMs)+vfMs(p.DrainMs) {
+			res.failf("deploy-exceeds-bound", "deploy took %v, more than deploy-timeout+drain-timeout: %s", end-start, desc)
+		}
+		return
+	}
 	if failed {
 		if end != deadline {
 			res.failf("failed-deploy-return-time", "failed deploy must return exactly at start+deploy-timeout=%v, returned at %v: %s", deadline, end, desc)
@@ -36,7 +45,10 @@ func c17CheckDeployTiming(res *vfResult, p c01Plan, w *vfWorld, cr vfCmdResult, 
 	case p.Kind == "rollout" && p.OldRollout:
 		replaced = oldRollout
 	}
-	drainMax := time.Duration(0)
+	// A request that reached a replaced target strictly before the swap instant is in the drain's snapshot; one
+	// that reached it AT that instant may or may not be (same virtual instant, either order): it may lengthen
+	// the wait but need not.
+	drainMax, drainMust := time.Duration(0), time.Duration(0)
 	for _, tn := range replaced {
 		for _, rq := range w.targets[tn].reqLog() {
 			if rq.Arrived <= hi && (rq.Finished < 0 || rq.Finished > lo) {
@@ -45,12 +57,19 @@ func c17CheckDeployTiming(res *vfResult, p c01Plan, w *vfWorld, cr vfCmdResult, 
 					fin = hi + vfMs(p.DrainMs)
 				}
 				drainMax = max(drainMax, fin)
+				if rq.Arrived < lo {
+					drainMust = max(drainMust, fin)
+				} else {
+					res.label("tie:request-at-swap-instant")
+				}
 			}
 		}
 	}
 	wantLo, wantHi := lo, hi
+	if drainMust > 0 {
+		wantLo = max(lo, min(drainMust, lo+vfMs(p.DrainMs)))
+	}
 	if drainMax > 0 {
-		wantLo = max(lo, min(drainMax, lo+vfMs(p.DrainMs)))
 		wantHi = max(hi, min(drainMax, hi+vfMs(p.DrainMs)))
 	}
 	if end < wantLo || end > wantHi {
